@@ -180,10 +180,21 @@ fn run_trace(line: &str, dir: &str) -> String {
                 if let Some(s) = st.take() {
                     shim::logline("c drop".to_string());
                     let (tx, rx) = std::sync::mpsc::channel();
-                    let h = std::thread::spawn(move || {
-                        drop(s);
-                        let _ = tx.send(());
-                    });
+                    // `dropheld <ms> cb`: the store is dropped the way a flush callback of ANOTHER
+                    // store would drop it: on a thread that carries the FlushWorker's thread name
+                    let as_cb = t.get(2).map(|s| *s == "cb").unwrap_or(false);
+                    let b = if as_cb {
+                        std::thread::Builder::new().name("raft_log_wal_flush_worker".to_string())
+                    } else {
+                        std::thread::Builder::new()
+                    };
+                    let h = b
+                        .spawn(move || {
+                            shim::set_role_override("c");
+                            drop(s);
+                            let _ = tx.send(());
+                        })
+                        .unwrap();
                     let wait_ms: u64 = t.get(1).map(|s| pu(s)).unwrap_or(150);
                     let returned = rx.recv_timeout(std::time::Duration::from_millis(wait_ms)).is_ok();
                     shim::logline(format!("c dropheld {}", if returned { "returned" } else { "blocked" }));
